@@ -607,6 +607,8 @@ func genC15(c *oracleCfg) func(emit func(string)) {
 		// bytes that become '<' or '=' under a 7-bit mask, a case fold or an off-by-one comparison, next to black names:
 		// a tokenizer that confuses one of them with '<' / '=' emits a tag or a value the input does not contain
 		twins := []string{"\xbc", "\xbd", "\x1c", "\x1d", ";", ">", "\x7d", "\x5d", "\xbe", "\xa0", "\x85"}
+		twins = append(twins, unicodeTwins('<')...)
+		twins = append(twins, unicodeTwins('=')...)
 		for _, tw := range twins {
 			for _, w := range []string{"onerror", "onclick", "style", "href", "src", "xmlns"} {
 				for _, v := range []string{"x", "javascript:x", "alert(1)", "1"} {
